@@ -283,6 +283,11 @@ impl Prop for C03 {
             );
         }
 
+        if n <= 40 {
+            crate::props::c02::protocol("Dijkstra", || Dijkstra::new(&g, c.sources.iter().copied()), &seq)?;
+            crate::props::c02::protocol("DijkstraDist", || DijkstraDist::new(&g, c.sources.iter().copied()), &items)?;
+        }
+
         // classification
         let (stale, zero) = superseded_pops(&c.g, &c.sources);
         if stale > 0 {
